@@ -72,3 +72,77 @@ def observe_row(row):
 
 def observe(out):
     return [observe_row(r) for r in term.decode(out)]
+
+
+# ---------------------------------------------------------------------------------------------
+# side-by-side rows
+
+class SbsRow(object):
+    __slots__ = ("left", "right", "row", "split_by")
+
+
+class Panel(object):
+    """one panel of a side-by-side row: number = text of the line-number field belonging to the
+    panel's own file ('' when blank), body runs [(text, class, style)], kind"""
+    __slots__ = ("gutter", "number", "numclass", "body", "text", "kind", "classes")
+
+
+def _panel(runs, side):
+    p = Panel()
+    i = 0
+    gut = []
+    while i < len(runs) and runs[i][1] in LN:
+        gut.append(runs[i])
+        i += 1
+    p.gutter = gut
+    p.number = ""
+    p.numclass = None
+    for t, c, st in gut:
+        if c in ("ln_minus", "ln_plus", "ln_zero"):
+            if t.strip(" ") != "" or p.numclass is None:
+                p.number = t.strip(" ")
+                p.numclass = c
+    p.body = runs[i:]
+    p.text = "".join(t for t, _, _ in p.body)
+    cl = set(c for t, c, _ in p.body if t != "")
+    p.classes = cl
+    if cl & MINUS:
+        p.kind = "minus"
+    elif cl & PLUS:
+        p.kind = "plus"
+    elif "zero" in cl:
+        p.kind = "zero"
+    elif p.text.strip(" ") == "":
+        p.kind = "empty"
+    else:
+        p.kind = "other"
+    return p
+
+
+def observe_sbs_row(row):
+    """Split a decoded side-by-side row into its two panels at the first cell carrying the
+    right-gutter style (reserved ln_right). Returns None if the row has no such cell (a header
+    or decoration row)."""
+    runs = [(t, classify_style(st), st) for t, st in row.runs if t != ""]
+    # erase-to-eol belongs to the right panel
+    k = None
+    for i, (t, c, st) in enumerate(runs):
+        if c == "ln_right":
+            k = i
+            break
+    if k is None:
+        return None
+    r = SbsRow()
+    r.row = row
+    left_runs = runs[:k]
+    # the odd-width centre space (default style) before the right gutter is not panel content
+    r.left = _panel(left_runs, "left")
+    r.right = _panel(runs[k:], "right")
+    for _, bg in row.erase:
+        c = bg_class(bg)
+        if c in PLUS and r.right.kind in ("empty", "other"):
+            r.right.kind = "plus"
+        elif c in MINUS and r.right.kind in ("empty",):
+            r.right.kind = "minus"
+    r.split_by = "ln_right"
+    return r
